@@ -129,7 +129,8 @@ var props = map[string]*PropSpec{
 	},
 	"C20": {
 		Level:        "exploration",
-		Scens:        []ScenSpec{{ID: "C20", QuickRuns: 2000, QuickSecs: 60, ThoroughRuns: 200000, ThoroughSecs: 600}},
+		Scens: []ScenSpec{{ID: "C20", QuickRuns: 2000, QuickSecs: 60, ThoroughRuns: 200000, ThoroughSecs: 600},
+			{ID: "C20D", QuickRuns: 400, QuickSecs: 60, ThoroughRuns: 40000, ThoroughSecs: 300}},
 		CoverageRule: "each run = the real StateChangeWatcher goroutine on the fake clock with generated settings (consecutive 1-5, stable period 0-20 s, interval 0.5-5 s, cool-down 0-60 s) and a scripted health predicate of 10-80 observations (steady with a change, flapping below the thresholds, random persistence, long runs); non-trivial = at least one reaction fired; distinct = (settings, script) signatures among non-trivial runs",
 		Assumptions: []string{
 			"trace oracle only: every reaction must be justified by the recorded observations (no mirrored automaton); absence of a reaction is never a violation",
